@@ -567,4 +567,192 @@ theorem deser_toRaw (i : Info) (ht : WellTyped i) (ha : whenSome AnglesOK i.guid
   simp only [deser, deserWith, toRaw, h1, h2, h3, h4]
   rfl
 
+/-! ### the kind of a refusal, per block -/
+
+theorem andThen_err (o k : Outcome) (e : Kind) :
+    o.andThen k = .err e ↔ o = .err e ∨ (o = .ok ∧ k = .err e) := by
+  cases o <;> simp [Outcome.andThen]
+
+theorem validateDate_err (v : List Char) (k : Kind) (h : validateDate v = .err k) : k = .date := by
+  unfold validateDate at h
+  split at h
+  · cases h; rfl
+  · split at h
+    · cases h; rfl
+    · split at h <;> first | (cases h; rfl) | cases h
+
+theorem checkDate_err (i : Info) (k : Kind) (h : checkDate i = .err k) : KindViolated k i := by
+  have hne : checkDate i ≠ .ok := by rw [h]; simp
+  have hk : k = .date := by
+    unfold checkDate at h
+    cases hc : i.created with
+    | none => simp [hc] at h
+    | some v => simp only [hc] at h; exact validateDate_err v k h
+  subst hk
+  exact fun hr => hne ((checkDate_spec i).2.2 hr)
+
+theorem gaspLoop_err (l : List Nat) : ∀ last k, gaspLoop last l = .err k → k = .gasp := by
+  induction l with
+  | nil => intro last k h; simp [gaspLoop] at h
+  | cons c r ih =>
+    intro last k h
+    simp only [gaspLoop] at h
+    split at h
+    · cases h; rfl
+    · exact ih c k h
+
+theorem checkGasp_err (i : Info) (k : Kind) (h : checkGasp i = .err k) : KindViolated k i := by
+  have hne : checkGasp i ≠ .ok := by rw [h]; simp
+  have hk : k = .gasp := by
+    unfold checkGasp at h
+    cases hc : i.gasp with
+    | none => simp [hc] at h
+    | some v =>
+      simp only [hc] at h
+      split at h
+      · match v, h with
+        | [], h => cases h
+        | a :: r, h => exact gaspLoop_err r a k h
+      · cases h
+  subst hk
+  exact fun hr => hne ((checkGasp_spec i).2.2 hr)
+
+theorem guideLoop_err (gs : List Guide) : ∀ (seen : List (List Char)) (k : Kind),
+    guideLoop seen gs = .err k →
+      (k = .dupId ∧ ¬ ((gs.filterMap (·.ident)).Nodup ∧ ∀ x ∈ gs.filterMap (·.ident), x ∉ seen)) ∨
+      (k = .angle ∧ ¬ ∀ g ∈ gs, lineAngleOK g.line = true) := by
+  induction gs with
+  | nil => intro seen k h; simp [guideLoop] at h
+  | cons g r ih =>
+    intro seen k h
+    unfold guideLoop at h
+    cases hid : g.ident with
+    | none =>
+      simp only [hid, angleBad_eq] at h
+      by_cases ha : lineAngleOK g.line = true
+      · simp only [ha, Bool.not_true, Bool.false_eq_true, if_false] at h
+        rcases ih seen k h with ⟨e, hn⟩ | ⟨e, hn⟩
+        · left; refine ⟨e, ?_⟩; simpa [List.filterMap_cons, hid] using hn
+        · right; refine ⟨e, fun hall => hn fun x hx => hall x (by simp [hx])⟩
+      · simp only [ha, Bool.not_false, if_true] at h
+        cases h
+        right; exact ⟨rfl, fun hall => ha (hall g (by simp))⟩
+    | some id =>
+      simp only [hid, angleBad_eq, List.contains_eq_mem, decide_eq_true_eq] at h
+      by_cases hs : id ∈ seen
+      · simp only [hs, if_true] at h
+        cases h
+        left; refine ⟨rfl, ?_⟩
+        simp only [List.filterMap_cons, hid]
+        exact fun hh => hh.2 id (by simp) hs
+      · simp only [hs, if_false] at h
+        by_cases ha : lineAngleOK g.line = true
+        · simp only [ha, Bool.not_true, Bool.false_eq_true, if_false] at h
+          rcases ih (id :: seen) k h with ⟨e, hn⟩ | ⟨e, hn⟩
+          · left; refine ⟨e, ?_⟩
+            simp only [List.filterMap_cons, hid, List.nodup_cons]
+            intro hh
+            apply hn
+            refine ⟨hh.1.2, fun x hx => ?_⟩
+            simp only [List.mem_cons, not_or]
+            exact ⟨fun e' => hh.1.1 (e' ▸ hx), hh.2 x (by simp [hx])⟩
+          · right; refine ⟨e, fun hall => hn fun x hx => hall x (by simp [hx])⟩
+        · simp only [ha, Bool.not_false, if_true] at h
+          cases h
+          right; exact ⟨rfl, fun hall => ha (hall g (by simp))⟩
+
+theorem checkGuidelines_err (i : Info) (k : Kind) (h : checkGuidelines i = .err k) : KindViolated k i := by
+  unfold checkGuidelines at h
+  cases hc : i.guidelines with
+  | none => simp [hc] at h
+  | some gs =>
+    simp only [hc] at h
+    rcases guideLoop_err gs [] k h with ⟨e, hn⟩ | ⟨e, hn⟩
+    · subst e
+      simp only [KindViolated, hc, whenSome, IdsUnique]
+      intro hu; exact hn ⟨hu, by simp⟩
+    · subst e
+      simp only [KindViolated, hc, whenSome, AnglesOK]
+      exact hn
+
+theorem checkSelection_err (i : Info) (k : Kind) (h : checkSelection i = .err k) : KindViolated k i := by
+  have hne : checkSelection i ≠ .ok := by rw [h]; simp
+  have hk : k = .selBits := by
+    unfold checkSelection at h
+    cases hc : i.selection with
+    | none => simp [hc] at h
+    | some v => simp only [hc] at h; split at h <;> cases h; rfl
+  subst hk
+  exact fun hr => hne ((checkSelection_spec i).2.2 hr)
+
+theorem checkFamilyClass_err (i : Info) (k : Kind) (h : checkFamilyClass i = .err k) : KindViolated k i := by
+  have hne : checkFamilyClass i ≠ .ok := by rw [h]; simp
+  have hk : k = .familyClass := by
+    unfold checkFamilyClass at h
+    cases hc : i.familyClass with
+    | none => simp [hc] at h
+    | some p => obtain ⟨c, s⟩ := p; simp only [hc] at h; split at h <;> cases h; rfl
+  subst hk
+  exact fun hr => hne ((checkFamilyClass_spec i).2.2 hr)
+
+theorem checkBlue_err (len : Option Nat) (max : Nat) (k : Kind) (h : checkBlue len max = .err k) :
+    (k = .listLen ∧ ¬ lenWithin max len) ∨ (k = .listPairs ∧ ¬ lenEven len) := by
+  unfold checkBlue at h
+  cases len with
+  | none => simp at h
+  | some n =>
+    simp only at h
+    split at h
+    · cases h; left; exact ⟨rfl, by simp only [lenWithin]; omega⟩
+    · split at h
+      · cases h; right; exact ⟨rfl, by simp only [lenEven]; omega⟩
+      · cases h
+
+theorem checkStem_err (len : Option Nat) (k : Kind) (h : checkStem len = .err k) :
+    k = .listLen ∧ ¬ lenWithin 12 len := by
+  unfold checkStem at h
+  cases len with
+  | none => simp at h
+  | some n =>
+    simp only at h
+    split at h
+    · cases h; exact ⟨rfl, by simp only [lenWithin]; omega⟩
+    · cases h
+
+theorem itemLoop_err (l : List ExtItem) (k : Kind) (h : itemLoop l = .err k) : k = .emptyWoff := by
+  induction l with
+  | nil => simp [itemLoop] at h
+  | cons it r ih =>
+    simp only [itemLoop] at h
+    split at h
+    · cases h; rfl
+    · exact ih h
+
+theorem recordLoop_err (l : List (List ExtItem)) (k : Kind) (h : recordLoop l = .err k) : k = .emptyWoff := by
+  induction l with
+  | nil => simp [recordLoop] at h
+  | cons items r ih =>
+    simp only [recordLoop] at h
+    split at h
+    · cases h; rfl
+    · rcases (andThen_err _ _ _).1 h with h1 | ⟨_, h2⟩
+      · exact itemLoop_err items k h1
+      · exact ih h2
+
+theorem checkExtensions_err (i : Info) (k : Kind) (h : checkExtensions i = .err k) : k = .emptyWoff := by
+  unfold checkExtensions at h
+  cases hc : i.woffExtensions with
+  | none => simp [hc] at h
+  | some v =>
+    simp only [hc] at h
+    split at h
+    · cases h; rfl
+    · exact recordLoop_err v k h
+
+theorem checkNonEmpty_err (n : Option Nat) (k : Kind) (h : checkNonEmpty n = .err k) : k = .emptyWoff := by
+  unfold checkNonEmpty at h
+  cases n with
+  | none => simp at h
+  | some m => simp only at h; split at h <;> cases h; rfl
+
 end C13
